@@ -449,3 +449,13 @@ Example ex_all :
   | PErr _ => False
   end.
 Proof. vm_compute. split; reflexivity. Qed.
+
+(* the hypotheses of [task_add_step] on task 0 of the example, nothing received yet,
+   for its message number 3 *)
+Example ex_step_hyp :
+  let T := nth 0 ex_f (TMsg 1) in
+  is_act T = true /\ Inv (lin_id ex_f 0) 0 T (fun _ => false) empty_task /\
+  In (nth 3 (lin ex_f) (mkPmsg 0 [] None None 0)) (lin_tree (lin_id ex_f 0) 0 [] T).
+Proof.
+  split; [reflexivity|]. split; [now apply Inv_empty|]. vm_compute. auto 10.
+Qed.
